@@ -98,6 +98,10 @@ pub struct World {
     pub next_payload: u32,
     pub next_read: u32,
     pub in_prefix: bool,
+    /// LEASE: a LockTick happened and its traffic is not delivered yet
+    pub lock_phase: bool,
+    /// LEASE: the term the lock-step majority must keep
+    pub lock_term: u64,
 }
 
 /// Observation of one node before/after an API call.
@@ -323,6 +327,8 @@ impl World {
             next_payload: 1,
             next_read: 1,
             in_prefix: true,
+            lock_phase: false,
+            lock_term: 0,
         };
         w.ghost.cl.push(None);
         w.ghost.cl_fold.push(Some(0));
@@ -579,6 +585,14 @@ impl World {
             }
         }
         let eager = s.inputs_per_ready <= 1;
+        let lock = &s.lock_majority;
+        if !lock.is_empty() && forced.is_none() {
+            if self.lock_phase {
+                out.push(Action::LockDeliver);
+            } else if u.ticks < c.ticks {
+                out.push(Action::LockTick);
+            }
+        }
         for i in 0..n {
             let id = i as u8 + 1;
             let node = &self.nodes[i];
@@ -645,6 +659,10 @@ impl World {
                 continue;
             }
             let vw = r.verif_view();
+            if lock.contains(&id) {
+                // lock-step nodes are ticked by LockTick only and take no client input
+                continue;
+            }
             if r.state != StateRole::Leader {
                 let can_time_out = s.timeoutable.contains(&id) && r.term < s.max_term;
                 if vw.promotable {
@@ -735,6 +753,9 @@ impl World {
             if q.is_empty() {
                 continue;
             }
+            if lock.contains(from) && lock.contains(to) {
+                continue; // delivered by LockDeliver
+            }
             let ti = *to as usize - 1;
             let Some(l) = self.live(ti) else {
                 // messages to a crashed node wait; they may be dropped on budget
@@ -790,6 +811,47 @@ impl World {
     /// inside that round (then the Ready stays a separate, forced action so that every cut
     /// point is a choice of the explorer).
     pub fn apply(&mut self, a: &Action, ctx: &mut Ctx) -> bool {
+        if !self.apply2(a, ctx) {
+            return false;
+        }
+        if !self.in_prefix && !self.scen.lock_majority.is_empty() {
+            self.check_lease(a, ctx);
+        }
+        true
+    }
+
+    /// C16(c): the lock-step leader keeps leading and the majority keeps its term.
+    fn check_lease(&mut self, a: &Action, ctx: &mut Ctx) {
+        let ids = &self.scen.lock_majority;
+        for (k, id) in ids.iter().enumerate() {
+            let Some(l) = self.live(*id as usize - 1) else { continue };
+            let r = &l.rn.raft;
+            if r.term != self.lock_term {
+                ctx.v(
+                    "C16",
+                    "a member of the heartbeating majority changed its term",
+                    format!("node {} term {} -> {} after {:?}", id, self.lock_term, r.term, a),
+                );
+            }
+            if k == 0 && r.state != StateRole::Leader {
+                ctx.v(
+                    "C16",
+                    "the heartbeating leader stepped down",
+                    format!("node {} is {:?} at term {} after {:?}", id, r.state, r.term, a),
+                );
+            }
+        }
+    }
+
+    pub fn end_prefix(&mut self) {
+        self.in_prefix = false;
+        self.used = Counts::default();
+        if let Some(id) = self.scen.lock_majority.first() {
+            self.lock_term = self.live(*id as usize - 1).map(|l| l.rn.raft.term).unwrap_or(0);
+        }
+    }
+
+    fn apply2(&mut self, a: &Action, ctx: &mut Ctx) -> bool {
         if !self.apply_inner(a, ctx) {
             return false;
         }
@@ -1112,6 +1174,52 @@ impl World {
                     None => true,
                 }
             }
+            Action::LockTick => {
+                if charge {
+                    self.used.ticks += 1;
+                }
+                self.lock_phase = true;
+                let ids = self.scen.lock_majority.clone();
+                for id in ids {
+                    let i = id as usize - 1;
+                    if self.live(i).is_none() {
+                        continue;
+                    }
+                    if !self.tick_once(i, ctx) {
+                        return false;
+                    }
+                    if self.settle_node(i, ctx).is_none() {
+                        return false;
+                    }
+                }
+                true
+            }
+            Action::LockDeliver => {
+                self.lock_phase = false;
+                let ids = self.scen.lock_majority.clone();
+                for _ in 0..1000 {
+                    let mut progressed = false;
+                    let keys: Vec<(u8, u8)> = self.net.keys().cloned().collect();
+                    for k in keys {
+                        if !(ids.contains(&k.0) && ids.contains(&k.1)) || self.live(k.1 as usize - 1).is_none() {
+                            continue;
+                        }
+                        while self.net.contains_key(&k) {
+                            progressed = true;
+                            if !self.apply_inner(&Action::Deliver(k.0, k.1), ctx) {
+                                return false;
+                            }
+                            if self.settle_node(k.1 as usize - 1, ctx).is_none() {
+                                return false;
+                            }
+                        }
+                    }
+                    if !progressed {
+                        break;
+                    }
+                }
+                true
+            }
             Action::Settle => self.settle(ctx),
             Action::Settle0(id) => self.settle_node(id as usize - 1, ctx).is_some(),
             Action::Isolate(id) => {
@@ -1374,7 +1482,7 @@ impl World {
     }
 
     /// async persistence: fsync the first k outstanding Readies, notify, then release.
-    fn persist_async(&mut self, i: usize, k: usize, ctx: &mut Ctx) -> bool {
+    pub fn persist_async(&mut self, i: usize, k: usize, ctx: &mut Ctx) -> bool {
         let (number, log_last, msgs) = {
             let l = self.nodes[i].live.as_mut().unwrap();
             let done: Vec<Held> = l.held.drain(..k).collect();
@@ -1533,6 +1641,7 @@ impl World {
         self.used.write(w);
         w.u64(self.next_payload as u64);
         w.u64(self.next_read as u64);
+        w.b(self.lock_phase);
     }
 }
 
